@@ -106,6 +106,31 @@ PivotLemma ==
        /\ \A t \in nf .. k - 1 : \A c \in t + 1 .. n - 1 :
               R[t][t] * R[t][t] >= 12 + SumR(LAMBDA i : R[i][c] * R[i][c], t, k - 1)
 
+\* planted inverses: T * Tinv = I, A * Ainv = I, T * (A_chol^{-1}) * T^T = I (scaled integers),
+\* and the reference elimination on A = P0^T L T returns exactly the printed packed factors
+MMulR(X, Y, n) == Mat(n, n, LAMBDA i, j : SumR(LAMBDA t : X[i][t] * Y[t][j], 0, n - 1))
+Scal(n, c) == Mat(n, n, LAMBDA i, j : IF i = j THEN c ELSE 0)
+InverseLemma ==
+  Fam = "tri" =>
+    LET n == I.n
+        T == Z0(I.T, n, n)
+        Ti == Z0(I.Inv, n, n)
+    IN /\ \A i \in 0 .. n - 1 : \A j \in 0 .. i - 1 : T[i][j] = 0 /\ Ti[i][j] = 0
+       /\ I.unit => \A i \in 0 .. n - 1 : T[i][i] = 1
+       /\ I.ok => MMulR(T, Ti, n) = Scal(n, 4)
+       /\ ~I.ok => T[I.kz][I.kz] = 0
+       /\ I.deep =>
+            LET A2 == Z0(I.A, n, n)
+                AI == Z0(I.AI, n, n)
+                PI == Z0(I.PI, n, n)
+                Tt == Mat(n, n, LAMBDA i, j : T[j][i])
+                S == Getf2(RatOf(I.A, n, n, 2), 0, 0, n, n)
+            IN /\ MMulR(A2, AI, n) = Scal(n, 16)
+               /\ MMulR(MMulR(T, PI, n), Tt, n) = Scal(n, 16)
+               /\ \A i \in 0 .. n - 1 : T[i][i] > 0
+               /\ S.A = RatOf(I.LU, n, n, 2) /\ S.ok
+               /\ \A j \in 1 .. n : S.piv[j] = I.ipiv[j]
+
 \* n x n integer matrices
 MMul(X, Y, n) == Mat(n, n, LAMBDA i, j : SumR(LAMBDA t : X[i][t] * Y[t][j], 0, n - 1))
 Ident(n) == Mat(n, n, LAMBDA i, j : IF i = j THEN 1 ELSE 0)
